@@ -114,7 +114,7 @@ Fixpoint p_v1_block (fuel : nat) (cur end_ count max : N) : prog (list hmsg') :=
           let ty := fst ts in let sz := snd ts in
           if sz =? 0 then p_v1_block fuel' (wrap64 (cur + 8)) end_ count max else
           if end_ <? wrap64 (cur + 8 + sz) then Ret [] else
-          (* objectheader_v1.go:249  r.ReadAt(data, current+8) *)
+          (* objectheader_v1.go:251  r.ReadAt(data, current+8) *)
           ReadAt (wrap64 (cur + 8)) sz (fun data =>
             bind (p_v1_block fuel' (wrap64 (cur + pad_to8 (8 + sz))) end_ (wrap16 (count + 1)) max) (fun rest =>
             Ret ({| hmp_type := ty; hmp_offset := cur; hmp_data := data |} :: rest)))))
@@ -159,7 +159,7 @@ Definition p_v1_header (fuel : nat) (addr : N) : prog (list hmsg' * bytes * N) :
 
 Definition OCHK : bytes := [79; 67; 72; 75].
 
-(* the message loop over the first chunk and the queued continuation chunks (objectheader.go:271-351) *)
+(* the message loop over the first chunk and the queued continuation chunks (objectheader.go:271-353) *)
 Fixpoint p_v2_loop (fuel : nat) (isBE : bool) (hdr : N) (cur end_ : N) (isCont : bool)
          (visited : list N) (pending : list (N * N)) (acc : list hmsg') : prog (list hmsg') :=
   match fuel with
@@ -177,16 +177,16 @@ Fixpoint p_v2_loop (fuel : nat) (isBE : bool) (hdr : N) (cur end_ : N) (isCont :
           bind (lift (ty <- index h 0;; sz <- (if isBE then rd_be h 1 2 else rd_le h 1 2);; Ok (ty, sz))) (fun ts =>
           let ty := fst ts in let sz := snd ts in
           if sz =? 0 then p_v2_loop fuel' isBE hdr (wrap64 (cur + hdr)) end_ isCont visited pending acc else
-          (* objectheader.go:313  r.ReadAt(data, current+msgHeaderSize) *)
+          (* objectheader.go:316  r.ReadAt(data, current+msgHeaderSize) *)
           ReadAt (wrap64 (cur + hdr)) sz (fun data =>
             let acc' := acc ++ [{| hmp_type := ty; hmp_offset := cur; hmp_data := data |}] in
             let cur' := wrap64 (cur + hdr + sz) in
             if ty =? MSG_CONT then
-              (* objectheader.go:328-346, since /repo 57823d4 *)
+              (* objectheader.go:330-348, since /repo 57823d4 *)
               bind (lift (cont_info data)) (fun c =>
               let a := fst c in let csz := snd c in
               if (csz <? 8) || existsb (N.eqb a) visited || (1024 <=? lenN' visited) then Fail else
-              (* objectheader.go:340  r.ReadAt(sig, cont.Address), 4 bytes *)
+              (* objectheader.go:342  r.ReadAt(sig, cont.Address), 4 bytes *)
               ReadAt a 4 (fun sg =>
                 if negb (bytes_eqb sg OCHK) then Fail else
                 p_v2_loop fuel' isBE hdr cur' end_ isCont (a :: visited)
